@@ -152,13 +152,15 @@ struct VCase {
     rules: Vec<String>,
     data: Vec<String>,
     inv: usize,
+    /// every rules file is <dir-i>/policy.guard, every data file <dir-j>/template.<ext>
+    same_names: bool,
 }
 
 fn argv_and_run(c: &VCase, via_binary: bool) -> (Vec<String>, i32, String) {
     let dir = fresh_dir("c06");
     let mut rpaths = vec![];
     for (i, r) in c.rules.iter().enumerate() {
-        let p = dir.join(format!("rules/r{}.guard", i));
+        let p = if c.same_names { dir.join(format!("rules/t{}/policy.guard", i)) } else { dir.join(format!("rules/r{}.guard", i)) };
         if r.contains(NOT_UTF8) {
             let mut bytes = vec![];
             for (k, part) in r.split(NOT_UTF8).enumerate() {
@@ -177,7 +179,7 @@ fn argv_and_run(c: &VCase, via_binary: bool) -> (Vec<String>, i32, String) {
     let mut dpaths = vec![];
     for (i, d) in c.data.iter().enumerate() {
         let ext = if d.trim_start().starts_with('{') { "json" } else { "yaml" };
-        let p = dir.join(format!("data/d{}.{}", i, ext));
+        let p = if c.same_names { dir.join(format!("data/e{}/template.{}", i, ext)) } else { dir.join(format!("data/d{}.{}", i, ext)) };
         write_file(&p, d);
         dpaths.push(p.to_string_lossy().to_string());
     }
@@ -270,11 +272,11 @@ fn gen_vcase(u: &mut Choices) -> VCase {
     if INVOCATIONS[inv] == "stdin-data" {
         data.truncate(1);
     }
-    VCase { rules, data, inv }
+    VCase { rules, data, inv, same_names: u.chance(1, 3) }
 }
 
 fn vcase_json(c: &VCase, via_binary: bool) -> J {
-    json!({"kind": "validate", "rules": c.rules, "data": c.data, "invocation": INVOCATIONS[c.inv], "via_binary": via_binary})
+    json!({"kind": "validate", "rules": c.rules, "data": c.data, "invocation": INVOCATIONS[c.inv], "via_binary": via_binary, "same_names": c.same_names})
 }
 
 fn random_validate(u: &mut Choices, via_binary: bool) -> CaseResult {
@@ -466,7 +468,7 @@ pub fn replay(case: &J) -> CaseResult {
         };
     }
     let inv = INVOCATIONS.iter().position(|i| Some(*i) == case["invocation"].as_str()).unwrap_or(0);
-    let c = VCase { rules: strs("rules"), data: strs("data"), inv };
+    let c = VCase { rules: strs("rules"), data: strs("data"), inv, same_names: case["same_names"].as_bool().unwrap_or(false) };
     match check_validate(&c, case["via_binary"].as_bool().unwrap_or(false)) {
         Ok(_) => CaseResult::Pass(Info::default()),
         Err((msg, sig)) => CaseResult::Fail(Failure { msg, sig, case: case.clone() }),
@@ -475,7 +477,7 @@ pub fn replay(case: &J) -> CaseResult {
 
 pub fn run(tier: Tier, seed: u64) -> i32 {
     let spec = EvidenceSpec {
-        rule: "validate: 1-3 rules files of kind {all-PASS, some-FAIL, all-SKIP, blank, syntactically broken (6 shapes) or not UTF-8, evaluation error (3 shapes)} x 1-3 data files of kind {compliant, non-compliant, not applicable (every guarded rule SKIPs), malformed (4 shapes), empty} in generated order x invocation {plain, --structured json/yaml/junit/sarif, --payload plain/structured, data on stdin, rules and data as directories, a missing path}. The expected exit code is computed from facts established through other code paths: `parse-tree` decides whether a rules text parses, run_checks decides the status of every (rules, data) pair alone; then 0 / 19 / 5 / any non-zero / error-not-0-or-19 by the rule of the property statement. Stage 'validate-binary' runs the same through the real cfn-guard binary (process exit status, `main`'s Err -> 255). test: rules {ok, broken, comment-only} x spec {ok, malformed, unknown status word} x {all expectations met, one mismatch} x {single file, --dir with 0-3 further guard files (sorting before / after, in sub-directories; good, with a mismatch, broken rules, malformed spec, without tests)} x {console, json, yaml, junit}: 0 / 7 / non-zero. Non-trivial: the pairs of the run have at least two different individual outcomes; distinct by hash of all texts and the invocation.".into(),
+        rule: "validate: 1-3 rules files of kind {all-PASS, some-FAIL, all-SKIP, blank, syntactically broken (6 shapes) or not UTF-8, evaluation error (3 shapes)} x 1-3 data files of kind {compliant, non-compliant, not applicable (every guarded rule SKIPs), malformed (4 shapes), empty} in generated order (distinct base names in one directory, or the same base name in a directory each) x invocation {plain, --structured json/yaml/junit/sarif, --payload plain/structured, data on stdin, rules and data as directories, a missing path}. The expected exit code is computed from facts established through other code paths: `parse-tree` decides whether a rules text parses, run_checks decides the status of every (rules, data) pair alone; then 0 / 19 / 5 / any non-zero / error-not-0-or-19 by the rule of the property statement. Stage 'validate-binary' runs the same through the real cfn-guard binary (process exit status, `main`'s Err -> 255). test: rules {ok, broken, comment-only} x spec {ok, malformed, unknown status word} x {all expectations met, one mismatch} x {single file, --dir with 0-3 further guard files (sorting before / after, in sub-directories; good, with a mismatch, broken rules, malformed spec, without tests)} x {console, json, yaml, junit}: 0 / 7 / non-zero. Non-trivial: the pairs of the run have at least two different individual outcomes; distinct by hash of all texts and the invocation.".into(),
         assumptions: vec!["`well-formed data` for the expectation is decided by serde_yaml accepting the text (the data kinds are chosen so that all loaders agree)".into()],
     };
     execute("C06", tier, seed, spec, &replay, &|run: &Session| {
